@@ -4,8 +4,8 @@ branch.
 Oracle (written from the property statement, by plain reachability over the commit DAG; nothing of
 ak.ghist is consulted to compute it):
 
-    branches in spec order b_1 < ... < b_m  (release/<major>.<minor> by (major, minor) as integers,
-    master last);  R_k = commits reachable from head h_k (h_k included);  P_k = R_1 u ... u R_{k-1};
+    branches in spec order b_1 < ... < b_m  (numeric-aware name: release/<major>.<minor> by (major, minor)
+    as integers, a name that is a prefix of another first, master last);  R_k = commits reachable from head h_k (h_k included);  P_k = R_1 u ... u R_{k-1};
     builds(b_k) = { c in R_k \\ P_k : c carries a build tag }  u  { h_k  if h_k not in P_k };
     M = commits whose message contains the search text.
 
@@ -39,9 +39,15 @@ Input space beyond DAG x heads x tags x matching set:
     cut-off is measured from.  Histories on which the package's documented rule ('older than latest
     report-related commit') and its code (earliest report-related build) disagree about a branch being
     obsolete are outside the property's quantifier and are not generated (every case is checked for this:
-    facts['in_domain']).
+    facts['in_domain']);
+  * branch names one of which is a proper prefix of another ('release/10' and 'release/10.1', 'release/rel-2'
+    and 'release/rel-2-1', continued by one or several numbers or by a word), in every order of declaration
+    (families small-prefix-names-*, prefix-names).  The spec order is cmp_branch_names (the name cut at the
+    separators, numbers by value, a proper prefix first, master last); only sets of names on which it agrees
+    with the natural sort of the raw names are generated (facts['names_in_domain']).
 """
 import contextlib
+import functools
 import io
 import itertools
 import logging
@@ -64,14 +70,81 @@ CLAUSES = ('listed_once', 'earliest', 'exactly_once_if_build_exists', 'never_not
 # spec
 # ------------------------------------------------------------------------------------------------
 
-def branch_sort_key(name):
-    """spec order: release/<major>.<minor> numerically, master last (the drivers generate only such
-    names, so every 'numeric-aware' ordering agrees with this one)"""
-    if name == 'master':
-        return (1, 0, 0)
-    assert name.startswith('release/')
-    major, minor = name[len('release/'):].split('.')
-    return (0, int(major), int(minor))
+NAME_SEPARATORS = '/._-'
+
+
+def name_parts(name):
+    """'release/rel-10.250' -> ['release', 'rel', 10, 250]: the name cut at the separators / . _ -,
+    parts made of digits only read as numbers"""
+    parts, cur = [], ''
+    for ch in name + '/':
+        if ch in NAME_SEPARATORS:
+            if cur:
+                parts.append(int(cur) if cur.isdigit() else cur)
+            cur = ''
+        else:
+            cur += ch
+    return parts
+
+
+def name_chunks(name):
+    """'release/rel-10.250' -> ['release/rel-', 10, '.', 250]: maximal runs of digits read as numbers,
+    everything between them kept as it is (the 'natural sort' reading of numeric-aware)"""
+    import re
+    return [int(x) if x.isdigit() else x for x in re.findall(r'\d+|\D+', name)]
+
+
+def _cmp_items(xs, ys):
+    """lexicographic comparison of two item lists, numbers by value, words as strings, a list that is
+    a proper prefix of the other first.  None where a number meets a word: 'numeric-aware' does not
+    say which goes first"""
+    for x, y in zip(xs, ys):
+        xi, yi = isinstance(x, int), isinstance(y, int)
+        if xi != yi:
+            return None
+        if x != y:
+            return -1 if x < y else 1
+    return (len(xs) > len(ys)) - (len(xs) < len(ys))
+
+
+def cmp_branch_names(a, b):
+    """spec order of two branch names: master last; release branches by numeric-aware name (cut at the
+    separators; a name whose parts are a proper prefix of the other's parts goes first).
+    None = not determined by the property (a number against a word)"""
+    if a == 'master' or b == 'master':
+        return (a == 'master') - (b == 'master')
+    return _cmp_items(name_parts(a), name_parts(b))
+
+
+def names_in_domain(names):
+    """the set of branch names is one on which every numeric-aware ordering agrees: for every pair the
+    comparison by separated parts and the comparison by digit runs ('natural sort' of the raw name) are
+    both determined, strict and equal.  (Excluded: a number against a word in the same position,
+    names differing only in separators or leading zeros, different separators in the same position.)"""
+    for a, b in itertools.combinations(names, 2):
+        if a == 'master' or b == 'master':
+            if a == b:
+                return False
+            continue
+        if not (a.startswith('release/') and b.startswith('release/')):
+            return False
+        c1 = _cmp_items(name_parts(a), name_parts(b))
+        c2 = _cmp_items(name_chunks(a), name_chunks(b))
+        if c1 is None or c2 is None or c1 == 0 or c1 != c2:
+            return False
+    return all(n == 'master' or n.startswith('release/') for n in names)
+
+
+def _cmp_or_raise(a, b):
+    c = cmp_branch_names(a, b)
+    if c is None:
+        raise ValueError(f"branch names {a!r} and {b!r}: their order is not determined by 'numeric-aware'")
+    return c
+
+
+# spec order as a sort key: release/<major>.<minor> names come out by (major, minor) as integers,
+# 'release/10' before 'release/10.1' before 'release/10.1.2', master last
+branch_sort_key = functools.cmp_to_key(_cmp_or_raise)
 
 
 class Spec:
@@ -217,7 +290,36 @@ def check(hist, text, obs):
         'roots': sum(1 for c in set().union(*sp.R.values()) if not sp.parents[c]) if sp.R else 0,
     }
     facts.update(_text_and_time_facts(sp, text, M))
+    facts.update(_name_facts(sp, hist, M))
     return fails, diags, facts
+
+
+def _name_facts(sp, hist, M):
+    """pairs of release branches (a, b) in which the parts of a's name are a proper prefix of the parts
+    of b's ('release/10' and 'release/10.1'): by the statement a is the lower-sorted one"""
+    declared = [b for b, _ in hist['branches']]
+    f = {'names_in_domain': names_in_domain(declared),
+         'prefix_num_short_first': False, 'prefix_num_long_first': False, 'prefix_word': False,
+         'prefix_num_both_sides_unmerged': False, 'prefix_num_deep': False}
+    rel = [b for b in sp.order if b != 'master']
+    for a, b in itertools.permutations(rel, 2):
+        pa, pb = name_parts(a), name_parts(b)
+        if len(pa) >= len(pb) or pb[:len(pa)] != pa:
+            continue
+        if not isinstance(pb[len(pa)], int):
+            f['prefix_word'] = True
+            continue
+        if declared.index(a) < declared.index(b):
+            f['prefix_num_short_first'] = True
+        else:
+            f['prefix_num_long_first'] = True
+        if len(pb) - len(pa) >= 2:
+            f['prefix_num_deep'] = True
+        # the order of the two decides what is 'not merged' where: each branch has a matching commit
+        # that is not reachable from the other head
+        if M & (sp.R[a] - sp.R[b]) and M & (sp.R[b] - sp.R[a]):
+            f['prefix_num_both_sides_unmerged'] = True
+    return f
 
 
 def _reads_as(text, msg):
@@ -628,7 +730,103 @@ def gen_old_history(seed, index):
     return hist, TEXTS[index % len(TEXTS)]
 
 
+# ---- branch names one of which is a proper prefix of another ---------------------------------------
+# 'numeric-aware name' orders 'release/10' before 'release/10.1' before 'release/10.1.2' (a name that is
+# a prefix of another sorts first) whatever comes next - a number or a word - and in whatever order the
+# refs are declared.
+
+PREFIX_OFFSET = 30_000_000
+# exhaustive families: (family suffix, names in declaration order)
+PREFIX_NAME_LISTS_QUICK = [
+    ('2c-10.1,10,master', 2, ['release/10.1', 'release/10', 'master']),
+    ('2c-10,10.1,master', 2, ['release/10', 'release/10.1', 'master']),
+    ('2c-master,10.1,10', 2, ['master', 'release/10.1', 'release/10']),
+    ('2c-10,master,10.1', 2, ['release/10', 'master', 'release/10.1']),
+    ('2c-10.1,master,10', 2, ['release/10.1', 'master', 'release/10']),
+    ('2c-master,10,10.1', 2, ['master', 'release/10', 'release/10.1']),
+    ('3c-10.1,10', 3, ['release/10.1', 'release/10']),
+    ('3c-10,10.1', 3, ['release/10', 'release/10.1']),
+    ('3c-rel-2-1,rel-2', 3, ['release/rel-2-1', 'release/rel-2']),
+    ('3c-10.250,10.250.0.1', 3, ['release/10.250', 'release/10.250.0.1']),
+    ('3c-9_1,9,master', 3, ['release/9_1', 'release/9', 'master']),
+    ('3c-master,2,2.10', 3, ['master', 'release/2', 'release/2.10']),
+]
+PREFIX_NAME_LISTS_THOROUGH = [
+    ('3c-10,master,10.1', 3, ['release/10', 'master', 'release/10.1']),
+    ('3c-10.1,master,10', 3, ['release/10.1', 'master', 'release/10']),
+    ('3c-10-hotfix,10', 3, ['release/10-hotfix', 'release/10']),
+    ('4c-10.1,10', 4, ['release/10.1', 'release/10']),
+    ('4c-10,10.1', 4, ['release/10', 'release/10.1']),
+]
+
+
+def prefix_names(rnd, nrel):
+    """nrel release branch names over one stem and one separator, among them a name and a numeric
+    continuation of it: number tuples t, t+(k,), t+(k, l), siblings differing in the last number (9 against
+    10: numeric, not lexicographic), a prefix of t, t with a word appended; only sets on which every
+    numeric-aware order agrees (names_in_domain)"""
+    while True:
+        sep = rnd.choice(['.', '.', '-', '_', '/'])
+        stem = rnd.choice(['', '', '', 'rel-', 'r_', 'lts/'])
+        t = tuple(rnd.choice([1, 2, 9, 10, 250]) for _ in range(rnd.choice([1, 1, 2])))
+        k = rnd.choice([0, 1, 2, 10])
+        ext = t + (k,)
+        pool = [t + (k, rnd.choice([0, 1, 3])), t + (rnd.choice([3, 9, 11]),), t[:-1] + (t[-1] + 1,),
+                t[:-1] + (9 if t[-1] == 10 else 10,), t[:-1] + (t[-1] + 1, 'hotfix'), ext + ('rc',),
+                t + (k + 1, 1)]
+        if len(t) > 1:
+            pool.append(t[:-1])
+        chosen = [t, ext] + rnd.sample(pool, nrel - 2)
+        names = ['release/' + stem + sep.join(str(x) for x in c) for c in chosen]
+        if len(set(names)) == nrel and names_in_domain(names):
+            return names
+
+
+def gen_prefix_names(seed, index):
+    """one seeded (history, text): the DAG / tags / messages / times of gen_random, the branches replaced by
+    2-3 release branches named by prefix_names (+ master in 4 of 5), declared in a shuffled order.  In
+    half of the cases the heads of the name and of its continuation are put on two commits neither of
+    which is reachable from the other, and each of the two gets a matching message"""
+    hist = gen_random(seed, PREFIX_OFFSET + index)
+    rnd = random.Random(f"{seed}/prefix-names/{index}")
+    text = TEXTS[index % len(TEXTS)]
+    n = len(hist['commits'])
+    nrel = rnd.choice([2, 2, 3])
+    names = prefix_names(rnd, nrel)
+    old_heads = [h for _, h in hist['branches']]
+    heads = [rnd.choice(old_heads) if rnd.random() < .5 else rnd.randint(1, n) for _ in names]
+    if rnd.random() < .5:
+        parents = {d['id']: d['parents'] for d in hist['commits']}
+
+        def anc(c):
+            got, stack = {c}, [c]
+            while stack:
+                for p in parents[stack.pop()]:
+                    if p not in got:
+                        got.add(p)
+                        stack.append(p)
+            return got
+        pairs = [(x, y) for x in range(1, n + 1) for y in range(1, n + 1)
+                 if x != y and x not in anc(y) and y not in anc(x)]
+        if pairs:
+            heads[0], heads[1] = rnd.choice(pairs)
+            for h in heads[:2]:
+                if rnd.random() < .8:
+                    hist['commits'][h - 1]['msg'] = rnd.choice(
+                        [m for m in MESSAGES_MATCH if text in m])
+    branches = [[nm, h] for nm, h in zip(names, heads)]
+    if rnd.random() < .8:
+        branches.append(['master', rnd.choice(old_heads + [n])])
+    rnd.shuffle(branches)
+    hist['branches'] = branches
+    return hist, text
+
+
 RANDOM_BLOCK = 64
+
+
+def n_prefix_names(tier):
+    return 2048 if tier == 'quick' else 20480
 
 
 def n_random(tier):
@@ -683,6 +881,11 @@ def families(tier, seed):
         return blocks
     fams.append(('verbatim-text', seeded_blocks(gen_verbatim, n_verbatim(tier))))
     fams.append(('old-history', seeded_blocks(gen_old_history, n_old(tier))))
+
+    lists = PREFIX_NAME_LISTS_QUICK + (PREFIX_NAME_LISTS_THOROUGH if tier == 'thorough' else [])
+    for suffix, n, names in lists:
+        fams.append(('small-prefix-names-' + suffix, small(n, names)))
+    fams.append(('prefix-names', seeded_blocks(gen_prefix_names, n_prefix_names(tier))))
     return fams
 
 
@@ -694,7 +897,13 @@ REACH = ['head inside another branch', 'heads coincide', 'tagged merge of two bu
          "non-empty 'not merged'", 'several roots',
          'search text with leading/trailing whitespace, a reachable commit contains only the stripped text',
          'a reachable commit contains the search text only case-insensitively / as a pattern / with blanks collapsed',
-         'report-related commit more than 30 days older than the head of a higher-sorted branch']
+         'report-related commit more than 30 days older than the head of a higher-sorted branch',
+         'a release branch name is a proper prefix of another that continues with a number, declared before it',
+         'a release branch name is a proper prefix of another that continues with a number, declared after it',
+         'a release branch name is a proper prefix of another that continues with a number, each of the two '
+         'branches has a matching commit not reachable from the other head',
+         'a release branch name is a proper prefix of another that continues with two or more numbers',
+         'a release branch name is a proper prefix of another that continues with a word']
 
 
 def feats_of(hist, facts):
@@ -716,8 +925,14 @@ def feats_of(hist, facts):
         f.append(REACH[6])
     if facts['old_history']:
         f.append(REACH[7])
+    for k, fact in enumerate(('prefix_num_short_first', 'prefix_num_long_first', 'prefix_num_both_sides_unmerged',
+                              'prefix_num_deep', 'prefix_word')):
+        if facts[fact]:
+            f.append(REACH[8 + k])
     if not facts['in_domain']:
         f.append('OUTSIDE-DOMAIN')
+    if not facts['names_in_domain']:
+        f.append('OUTSIDE-DOMAIN-NAMES')
     return f
 
 
@@ -772,6 +987,10 @@ def run(b):
                 if 'OUTSIDE-DOMAIN' in feats:
                     b.error(f"case {fam}#{bi}.{ci}: a branch head is more than 29 days older than the newest "
                             f"commit - outside the quantifier of the property")
+                    continue
+                if 'OUTSIDE-DOMAIN-NAMES' in feats:
+                    b.error(f"case {fam}#{bi}.{ci}: the branch names {[n for n, _ in hist['branches']]} are not "
+                            f"ordered the same way by every numeric-aware order - outside the property")
                     continue
                 for f in feats:
                     b.hit(f)
